@@ -16,7 +16,7 @@
    the three availability conditions. The code proved is the repaired one (fix commits F1–F3, see known_findings.json). *)
 From AL Require Import Base Api Mutex RwLock RwApi RwInv RwLive.
 From AL.Tie Require Tie_Raw Tie_RwLock Tie_RwFutures Tie_Mutex.
-From AL.Sched Require RwReadEvSched RwReadEvInv RwReadEvOrd MutexEvSched MutexEvInv MutexEvOrd.
+From AL.Sched Require RwReadEvSched RwReadEvInv RwReadEvOrd RwWriteEvSched RwWriteEvInv RwWriteEvOrd MutexEvSched MutexEvInv MutexEvOrd.
 
 Theorem C06_idle_nothing_pending : forall ops : list rop, N.of_nat (length ops) < RLIVE_BOUND ->
   let x := rrun ops in quiescent x -> r_guards x = [] -> no_unpolled_upgrade x ->
@@ -74,6 +74,22 @@ Theorem C06_sched_readers_inflight : forall (sched : list RwReadEvSched.act) (nf
   RwReadEvSched.g_wb s = false -> RwReadEvInv.needy s = true -> RwReadEvInv.inflight s = true.
 Proof. rewrite RwReadEvOrd.rd_bt_premise. exact RwReadEvInv.rw_read_sched_inflight. Qed.
 
+(* ---------- schedule half, clause (d) ---------- *)
+(* The micro-step machine of Sched/RwWriteEvSched.v: the reader count, WRITER_BIT and the event no_readers at
+   atomic-action granularity; a write() past the inner mutex (fetch_or) and an upgrade() (fetch_sub that sets the bit and
+   removes the upgrader's own count) run the same loop, cut at its load, listen, the poll of the listener and the drop
+   of the listener; a reader leaving is cut between its fetch_sub and its notify(1); cancellation = write_unlock, then the
+   listener; the inner mutex is abstract (at most one future between its fetch_or / fetch_sub and the end of its guard).
+   For EVERY schedule: when no reader is left, nothing is in flight and every woken future has been polled again, no
+   polled write() / upgrade() waits on no_readers. *)
+Theorem C06_sched_writer : forall (sched : list RwWriteEvSched.act) (readers : N) (nfuts : nat),
+  RwWriteEvSched.lostb (RwWriteEvSched.run RwWriteEvSched.gen_wr_bt readers nfuts sched) = false.
+Proof. rewrite RwWriteEvOrd.wr_bt_premise. exact RwWriteEvInv.rw_write_sched_no_lost_wakeup. Qed.
+
+Theorem C06_sched_writer_prefix_refuted :
+  RwWriteEvSched.lostb (RwWriteEvSched.run false 1 2 (RwWriteEvSched.f2c_schedule false)) = true.
+Proof. exact RwWriteEvInv.rw_write_sched_prefix_refuted. Qed.
+
 (* writers and upgradable readers queue on the inner mutex, which is the Mutex of C05: its schedule-level theorem
    (clause (c): with the inner mutex free nothing waits on it) is C05_sched, restated here for the record *)
 Theorem C06_sched_inner_mutex : forall (sched : list MutexEvSched.act) (nfuts : nat),
@@ -95,3 +111,5 @@ Print Assumptions C06_sched_readers.
 Print Assumptions C06_sched_readers_inflight.
 Print Assumptions C06_sched_inner_mutex.
 Print Assumptions C06_sched_readers_prefix_refuted.
+Print Assumptions C06_sched_writer.
+Print Assumptions C06_sched_writer_prefix_refuted.
